@@ -292,8 +292,13 @@ func genText(t *rapid.T) textCase {
 		n = gen.Name(t, gen.NameOpts{MaxLabs: 6})
 	}
 	var sb strings.Builder
+	raw := rapid.IntRange(0, 3).Draw(t, "rawhigh") == 0
 	for _, l := range n {
-		sb.WriteString(gen.SpellLabel(t, l))
+		if raw {
+			sb.WriteString(gen.SpellLabelRaw(t, l))
+		} else {
+			sb.WriteString(gen.SpellLabel(t, l))
+		}
 		sb.WriteByte('.')
 	}
 	s := sb.String()
@@ -315,7 +320,7 @@ func genText(t *rapid.T) textCase {
 	return textCase{S: s}
 }
 
-var textUnits = []string{"a", "A", "0", ".", `\`, `\.`, `\\`, `\065`, `\0`, `\06`}
+var textUnits = []string{"a", "A", "0", ".", `\`, `\.`, `\\`, `\065`, `\0`, `\06`, "\xc3\xa9"}
 
 func eachSmallText(maxUnits int, emit func(textCase)) {
 	var rec func(cur string, used int)
